@@ -250,7 +250,10 @@ func (fx *fnExec) execCallWith(st *state, in ssa.Instruction, cc *ssa.CallCommon
 			// reachable from the arguments havocked) and the function itself is swept for crash-freedom
 			// under no precondition, tagged with this function's properties
 			fx.g.queueSweep(info.fn, fx.allProps())
-			ct = &Contract{Key: info.key, Trusted: true, Opaque: true, Allocates: true, Loops: map[int]*LoopSpec{}, HavocArgs: true}
+			// a helper that provably writes nothing its caller can see needs no havoc (and so cannot
+			// disturb the caller's frame clause); anything else is treated like an unknown external
+			pure := fx.g.staticPure(info.fn, map[*ssa.Function]bool{})
+			ct = &Contract{Key: info.key, Trusted: true, Opaque: true, Allocates: !pure, Loops: map[int]*LoopSpec{}, HavocArgs: !pure}
 			fx.assumptionsUsed["function of this module without a contract, called as opaque and swept for crash-freedom only: "+info.fn.String()] = true
 		} else {
 			fx.fail("call to %s: no contract and not inlinable (key %s)", callShortName(cc), info.key)
